@@ -251,9 +251,30 @@ block_fns!(c_encrypt_block_nu, c_decrypt_block_nu, l_roundtrip_nu, l_rtmono_nu, 
 
 // Public API on bytes: new_from_slice + encrypt_block / decrypt_block == Serpent of the submission for every key of
 // SYMBOLIC length 16..=32 bytes and every block.
+// expand_key is replaced by its contract (c_expand_key): it returns THE padded key of its argument.  So that both
+// sides of the comparison start from the same 32 symbolic bytes, the padded key is named by one variable `padded`
+// (assumed equal to the reference's pad_key(key, n)); the stub checks (asserts, not assumes) that this is the padded
+// key of the slice it was actually given, and that expand_key's precondition holds at the call.
+pub static mut PADDED: [u8; 32] = [0; 32];
+#[allow(static_mut_refs)]
+fn st_expand_key(source: &[u8], len_bits: usize) -> [u8; 32] {
+    assert!(16 <= source.len() && source.len() <= 32 && len_bits == 8 * source.len());
+    let mut tmp = [0u8; 32];
+    let mut i = 0;
+    while i < 32 {
+        if i < source.len() { tmp[i] = source[i]; }
+        i += 1;
+    }
+    let want = r::pad_key(&tmp, source.len());
+    unsafe {
+        assert!(eq_bytes32(&want, &PADDED));
+        PADDED
+    }
+}
 macro_rules! api_fns {
     ($enc:ident, $dec:ident, $unwind:expr, $cfgok:expr) => {
         #[kani::proof]
+        #[kani::stub(expand_key, st_expand_key)]
         #[kani::stub(crate::bitslice::apply_s, st_s)]
         #[kani::stub(bcref::serpent::sbox, st_s)]
         #[kani::stub(crate::bitslice::linear_transform, st_l)]
@@ -265,15 +286,21 @@ macro_rules! api_fns {
             let n: usize = kani::any();
             kani::assume(16 <= n && n <= 32);
             kani::cover!(n == 16);
+            kani::cover!(n == 23);
             kani::cover!(n == 32);
+            let padded: [u8; 32] = kani::any();
+            kani::assume(eq_bytes32(&padded, &r::pad_key(&buf, n)));
+            unsafe { PADDED = padded; }
             let b: [u8; 16] = kani::any();
             let c = <Serpent as KeyInit>::new_from_slice(&buf[..n]).unwrap();
             let mut blk = Array(b);
             cipher::BlockCipherEncrypt::encrypt_block(&c, &mut blk);
             replay_all();
-            assert!(blk.0 == r::encrypt(&buf, n, &b));
+            // = r::encrypt(&buf, n, &b) by its definition, with pad_key(buf, n) named `padded`
+            assert!(blk.0 == r::encrypt_with(&r::key_schedule(&padded), &b));
         }
         #[kani::proof]
+        #[kani::stub(expand_key, st_expand_key)]
         #[kani::stub(crate::bitslice::apply_s, st_s)]
         #[kani::stub(bcref::serpent::sbox, st_s)]
         #[kani::stub(crate::bitslice::apply_s_inv, st_si)]
@@ -287,19 +314,23 @@ macro_rules! api_fns {
             let n: usize = kani::any();
             kani::assume(16 <= n && n <= 32);
             kani::cover!(n == 16);
+            kani::cover!(n == 23);
             kani::cover!(n == 32);
+            let padded: [u8; 32] = kani::any();
+            kani::assume(eq_bytes32(&padded, &r::pad_key(&buf, n)));
+            unsafe { PADDED = padded; }
             let b: [u8; 16] = kani::any();
             let c = <Serpent as KeyInit>::new_from_slice(&buf[..n]).unwrap();
             let mut blk = Array(b);
             cipher::BlockCipherDecrypt::decrypt_block(&c, &mut blk);
             replay_all();
-            assert!(blk.0 == r::decrypt(&buf, n, &b));
+            assert!(blk.0 == r::decrypt_with(&r::key_schedule(&padded), &b));
         }
     };
 }
-// @ob name=c_api_enc_un props=C08,C20 fn=serpent::Serpent::new_from_slice,serpent::Serpent::encrypt_block uses=c_apply_s_fwd,c_linear_transform_fwd timeout=900
-// @ob name=c_api_dec_un props=C08,C20 fn=serpent::Serpent::new_from_slice,serpent::Serpent::decrypt_block uses=c_apply_s_fwd,c_apply_s_inv,c_linear_transform_inv timeout=900
+// @ob name=c_api_enc_un props=C08,C20 fn=serpent::Serpent::new_from_slice,serpent::Serpent::encrypt_block uses=c_expand_key,c_apply_s_fwd,c_linear_transform_fwd timeout=900
+// @ob name=c_api_dec_un props=C08,C20 fn=serpent::Serpent::new_from_slice,serpent::Serpent::decrypt_block uses=c_expand_key,c_apply_s_fwd,c_apply_s_inv,c_linear_transform_inv timeout=900
 api_fns!(c_api_enc_un, c_api_dec_un, 141, cfg!(not(serpent_no_unroll)));
-// @ob name=c_api_enc_nu props=C08,C03,C20 cfg=no_unroll fn=serpent::Serpent::new_from_slice,serpent::Serpent::encrypt_block uses=c_apply_s_fwd,c_linear_transform_fwd timeout=900
-// @ob name=c_api_dec_nu props=C08,C03,C20 cfg=no_unroll fn=serpent::Serpent::new_from_slice,serpent::Serpent::decrypt_block uses=c_apply_s_fwd,c_apply_s_inv,c_linear_transform_inv timeout=900
+// @ob name=c_api_enc_nu props=C08,C03,C20 cfg=no_unroll fn=serpent::Serpent::new_from_slice,serpent::Serpent::encrypt_block uses=c_expand_key,c_apply_s_fwd,c_linear_transform_fwd timeout=900
+// @ob name=c_api_dec_nu props=C08,C03,C20 cfg=no_unroll fn=serpent::Serpent::new_from_slice,serpent::Serpent::decrypt_block uses=c_expand_key,c_apply_s_fwd,c_apply_s_inv,c_linear_transform_inv timeout=900
 api_fns!(c_api_enc_nu, c_api_dec_nu, 141, cfg!(serpent_no_unroll));
